@@ -206,6 +206,7 @@ class PE:
         self.max_steps = 20_000_000
         self.call_stack: list[str] = []
         self.site_hook = None  # callable(kind, call_node, env, args) for domain-sensitive library calls
+        self.np_scalars = False  # opt-in: elements read from arrays made by numpy.array are NumPy scalars (fsmodel.NpScalar), as in the library
         from . import pe_models
 
         pe_models.install(self)
@@ -891,7 +892,7 @@ class PE:
             else:
                 key = self.as_index(idx)
             try:
-                return base[key]
+                return self._np_element(base, base[key])
             except IndexError as e:
                 raise PERaise("IndexError", str(e))
         if isinstance(base, (list, tuple, str, range)):
@@ -1349,6 +1350,17 @@ class PE:
             if all(self.cond(c, e2) for c in g.ifs):
                 self._comp(gens, i + 1, e2, emit)
 
+    def _np_element(self, base, r):
+        """a scalar read from an array that numpy.array built is a NumPy scalar of the array's type (only with `np_scalars`)"""
+        if not self.np_scalars or isinstance(r, Arr) or not str(base.dtype).startswith("np:"):
+            return r
+        from .fsmodel import NpScalar
+
+        kind = base.dtype[3:]
+        if isinstance(r, NpScalar):
+            return r
+        return NpScalar(Fraction(r) if kind.startswith("float") and isinstance(r, int) and not isinstance(r, bool) else r, kind)
+
     def iterate(self, it):
         if isinstance(it, Top):
             raise Undecidable(f"iteration over unknown: {it.why}")
@@ -1359,7 +1371,7 @@ class PE:
         if isinstance(it, dict):
             return list(it.keys())
         if isinstance(it, Arr):
-            return list(it)
+            return [self._np_element(it, v) for v in it]
         if isinstance(it, Obj):
             m = self.src.find_method(it.cls, "__iter__")
             if m:
